@@ -4,7 +4,6 @@ package main
 // with -tags=verif, SSA build with instantiated generics.
 
 import (
-	"regexp"
 	"fmt"
 	"go/ast"
 	"go/parser"
@@ -12,6 +11,7 @@ import (
 	"go/types"
 	"os"
 	"path/filepath"
+	"regexp"
 	"sort"
 	"strings"
 
@@ -23,20 +23,20 @@ import (
 const modPath = "github.com/csgura/fp"
 
 type Harness struct {
-	Item     *Item
-	Clause   int // index into Item.Clauses (the ensures clause this harness checks)
-	Name     string
-	GhostFn  string // ghost function name
-	Fn       *ssa.Function
-	Oblig    string // obligation name
-	startLn  int
-	endLn    int
-	Requires []string
-	Vacuity  bool
+	Item      *Item
+	Clause    int // index into Item.Clauses (the ensures clause this harness checks)
+	Name      string
+	GhostFn   string // ghost function name
+	Fn        *ssa.Function
+	Oblig     string // obligation name
+	startLn   int
+	endLn     int
+	Requires  []string
+	Vacuity   bool
 	ReplaySrc string // harness without its requires lines (replay of a solver model)
-	Secondary bool // not the first ensures clause of a function contract: obligations of the body itself are left to the first
-	Summary  bool
-	Insts    []*ssa.Function
+	Secondary bool   // not the first ensures clause of a function contract: obligations of the body itself are left to the first
+	Summary   bool
+	Insts     []*ssa.Function
 }
 
 type Program struct {
